@@ -24,12 +24,14 @@ SIZES = [4, 0, 1, 3]
 
 PCLS_YAML = [{"decl": "class Cls", "declarations": [
     {"decl": "Cls(int v)"}, {"decl": "~Cls()"}, {"decl": "int get() const"}, {"decl": "void set(int v)"},
-    {"decl": "int add(const Cls & other, int k = 2)"}]}]
+    {"decl": "int add(const Cls & other, int k = 2)"},
+    # member variables (docs/classes.rst "Member Variables"): descriptors of the Python type
+    {"decl": "int value"}, {"decl": "int ro +readonly"}, {"decl": "double other +name(alt)"}]}]
 PCLS_HPP = """
-class Cls { public: int value; explicit Cls(int v); ~Cls(); int get() const; void set(int v); int add(const Cls &other, int k = 2); };
+class Cls { public: int value; int ro; double other; explicit Cls(int v); ~Cls(); int get() const; void set(int v); int add(const Cls &other, int k = 2); };
 """
 PCLS_CPP = """
-Cls::Cls(int v) : value(v) {
+Cls::Cls(int v) : value(v), ro(2 * v), other(v + 0.5) {
     vt_begin("LibEnter", "Cls::Cls"); vt_target("ns1::Cls::Cls(int)"); vt_int(v); vt_end();
     vt_begin("LibExit", "Cls::Cls"); vt_target("ns1::Cls::Cls(int)"); vt_obj(this); vt_end(); }
 Cls::~Cls() { }
@@ -275,6 +277,73 @@ for k in range(start, len(plan)):
         exc = type(ex).__name__
     out.write(json.dumps({"ev": "PyReturn", "k": k, "exc": exc, "ret": ret}) + "\n"); out.flush()
 '''
+
+
+MEMBER_DRIVER = r'''
+import json, sys
+sys.path.insert(0, sys.argv[2])
+out = open(sys.argv[1], "a")
+import psub
+objs = []
+def log(ev, m, o, v):
+    if isinstance(v, float): val = {"t": "d", "v": int(v * 4)}
+    elif isinstance(v, int) and not isinstance(v, bool): val = {"t": "i", "v": v}
+    else: val = None
+    out.write(json.dumps({"ev": ev if val else "MemberErr", "f": m, "vals": [{"t": "pyobj", "v": o}] + ([val] if val else [])}) + "\n"); out.flush()
+def new(v):
+    objs.append(psub.Cls(v)); return len(objs) - 1
+def get(o, m):
+    try: log("MemberGet", m, o, getattr(objs[o], m))
+    except BaseException as ex: log("MemberErr", m, o, None)
+def put(o, m, v):
+    log("MemberSet", m, o, v)
+    try: setattr(objs[o], m, v)
+    except BaseException as ex: log("MemberErr", m, o, None)
+a = new(5); b = new(-2); c = new(9)
+get(b, "value"); get(b, "ro"); get(b, "alt")
+put(b, "value", 31); objs[b].get(); get(b, "value"); get(c, "value"); get(b, "ro")
+objs[c].set(-6); get(c, "value")
+put(c, "alt", 2.25); get(c, "alt"); get(a, "alt"); get(a, "value"); get(a, "ro")
+# a read-only member has no setter: assignment must fail and leave the member alone
+ok = False
+try:
+    objs[a].ro = 99
+except BaseException:
+    ok = True
+if not ok:
+    out.write(json.dumps({"ev": "MemberSet", "f": "ro", "vals": [{"t": "pyobj", "v": a}, {"t": "i", "v": 99}]}) + "\n"); out.flush()
+get(a, "ro")
+'''
+
+
+def run_members(d):
+    """Drive the member descriptors of the built extension in directory d; -> specs/Members.tla event list."""
+    drv = os.path.join(d, "mdriver.py")
+    open(drv, "w").write(MEMBER_DRIVER)
+    tf = os.path.join(d, "mtrace.ndjson")
+    if os.path.exists(tf):
+        os.remove(tf)
+    p = subprocess.run([common.PY, drv, tf, d], cwd=d, env=dict(os.environ, VT_TRACE=tf, MALLOC_CHECK_="3"),
+                       stdout=subprocess.PIPE, stderr=subprocess.PIPE, text=True, timeout=300)
+    events = []
+    for line in open(tf) if os.path.exists(tf) else []:
+        try:
+            events.append(json.loads(line))
+        except ValueError:
+            pass
+    # objects the Python side names by creation order are the objects of the library's constructor events, in order
+    addr = [e["vals"][-1]["v"] for e in events if e["ev"] == "LibExit" and e["f"] == "Cls::Cls"]
+    for e in events:
+        for x in e.get("vals", []):
+            if x["t"] == "pyobj":
+                x["t"], x["v"] = "o", (addr[x["v"]] if x["v"] < len(addr) else -1 - x["v"])
+    tr = cgen.member_trace(events)
+    for e in events:
+        if e["ev"] == "MemberErr":
+            tr.append({"op": "WErr", "o": 1, "m": e["f"], "v": 0})
+    if p.returncode != 0:
+        tr.append({"op": "WErr", "o": 1, "m": "driver exit %d: %s" % (p.returncode, p.stderr.strip().split("\n")[-1][:120]), "v": 0})
+    return tr
 
 
 def build_ext(d, cases, options=None, language="c++"):
